@@ -87,3 +87,38 @@ def c02_c_fold_more_indented(case, detail):
         if _re.search(r'^ .* [^ ]', line):     # starts with a space; a later space is followed by a non-space
             return True
     return False
+
+
+def _evs(case):
+    from . import events as _E
+    try:
+        return _E.fix(case.get('events') or [])
+    except Exception:
+        return []
+
+
+def _fold_flaw_text(s):
+    for line in _re.split('[\n\x85\u2028\u2029]', s):
+        if _re.search(r'^ .* [^ ]', line):
+            return True
+    return False
+
+
+def c05_c_fold_more_indented(case, detail):
+    """LibYAML emitter, a scalar event requesting folded style whose text has a line that starts with a space and has a
+    later space followed by a non-space character (libyaml folds there; the fold is read back as a line break)"""
+    if case.get('emitter') != 'c':
+        return False
+    return any(e[0] == 'SCALAR' and e[5] == '>' and isinstance(e[4], str) and _fold_flaw_text(e[4]) for e in _evs(case))
+
+
+def c_empty_implicit_first_document(case, detail):
+    """LibYAML emitter, first document start implicit without directives, root an unanchored empty scalar that is written
+    plain with its tag elided: libyaml writes nothing at all for that document (yaml_emitter_check_empty_document is a stub)"""
+    if case.get('emitter') != 'c' or (case.get('options') or {}).get('canonical'):
+        return False
+    ev = _evs(case)
+    if len(ev) < 3 or ev[1][0] != 'DS' or ev[1][1] or ev[1][2] or ev[1][3]:
+        return False
+    r = ev[2]
+    return r[0] == 'SCALAR' and r[1] is None and r[4] == '' and not r[5] and bool(r[3][0])
